@@ -404,6 +404,10 @@ func (o *Obligation) smtMode(w *World, extraAsserts []*Term, getValues []*Term, 
 	if ufmul {
 		b.WriteString("(declare-fun umul_real (Real Real) Real)\n(declare-fun umul_int (Int Int) Int)\n")
 	}
+	if d := sb.unint["isinf"]; strings.Contains(d, "(Real Int)") {
+		// math.IsInf(x, sign): sign > 0 asks for +Inf, sign < 0 for -Inf, sign == 0 for either (package math)
+		b.WriteString("(assert (forall ((x$ Real) (s$ Int)) (! (= (isinf x$ s$) (ite (> s$ 0) (isinf x$ 1) (ite (< s$ 0) (isinf x$ (- 1)) (or (isinf x$ 1) (isinf x$ (- 1)))))) :pattern ((isinf x$ s$)))))\n")
+	}
 	// string literals: pairwise distinct, known lengths and bytes; substring axiom
 	{
 		var lits []string
